@@ -1,5 +1,6 @@
 # © Crown-owned copyright 2025, Defence Science and Technology Laboratory UK
 """Main Gymnasium entrypoint for RL agents into PrimAITE."""
+import functools
 import json
 import random
 import sys
@@ -63,6 +64,31 @@ def set_random_seed(seed: int, generate_seed_value: bool) -> Union[None, int]:
     return seed
 
 
+def own_generator_state(operation):
+    """
+    Run an environment operation on the environment's OWN state of the process-wide generators.
+
+    Scripted agents and red applications draw from the process-wide ``random`` / ``numpy.random`` generators. Every
+    environment therefore remembers where its last operation left them and puts that state back in place before its
+    next operation, so that constructing, resetting or stepping another environment of the same process (or any other
+    user of those generators) in between does not shift this environment's draws. An environment that is alone in its
+    process behaves exactly as before.
+    """
+
+    @functools.wraps(operation)
+    def wrapper(self, *args, **kwargs):
+        own = self.__dict__.get("_generator_state")
+        if own is not None:
+            random.setstate(own[0])
+            np.random.set_state(own[1])
+        try:
+            return operation(self, *args, **kwargs)
+        finally:
+            self.__dict__["_generator_state"] = (random.getstate(), np.random.get_state())
+
+    return wrapper
+
+
 def log_seed_value(seed: int):
     """Log the selected seed value to file."""
     path = SIM_OUTPUT.path / "seed.log"
@@ -78,6 +104,7 @@ class PrimaiteGymEnv(gymnasium.Env):
     assumptions about the agent list always having a list of length 1.
     """
 
+    @own_generator_state
     def __init__(self, env_config: Union[Dict, str, PathLike]):
         """Initialise the environment."""
         super().__init__()
@@ -122,6 +149,7 @@ class PrimaiteGymEnv(gymnasium.Env):
         """Grab a fresh reference to the agent object because it will be reinstantiated each episode."""
         return self.game.rl_agents[self._agent_name]
 
+    @own_generator_state
     def step(self, action: ActType) -> Tuple[ObsType, SupportsFloat, bool, bool, Dict[str, Any]]:
         """Perform a step in the environment."""
         # make ProxyAgent store the action chosen by the RL policy
@@ -162,6 +190,7 @@ class PrimaiteGymEnv(gymnasium.Env):
         with open(path, "w") as file:
             json.dump(data, file)
 
+    @own_generator_state
     def reset(self, seed: Optional[int] = None, options: Optional[Dict] = None) -> Tuple[ObsType, Dict[str, Any]]:
         """Reset the environment."""
         _LOGGER.info(
